@@ -94,10 +94,24 @@ Definition seqkind_eqb (a b : seqkind) : bool :=
   match a, b with QList, QList | QTuple, QTuple | QSet, QSet => true | _, _ => false end.
 Definition hkind_eqb (a b : hkind) : bool :=
   match a, b with HKNone, HKNone | HKSet, HKSet | HKSeq, HKSeq => true | _, _ => false end.
+Fixpoint pstrs_eqb (a b : list pstr) : bool :=
+  match a, b with
+  | [], [] => true
+  | x :: a', y :: b' => pstr_eqb x y && pstrs_eqb a' b'
+  | _, _ => false
+  end.
+Definition err_eqb (a b : err) : bool :=
+  match a, b with
+  | EUntrusted x, EUntrusted y => pstrs_eqb x y
+  | ENoLoader x, ENoLoader y => pstr_eqb x y
+  | ETrustedTrue, ETrustedTrue | EKey, EKey | EType, EType | EValue, EValue | EAttr, EAttr | EImport, EImport
+  | ERecursion, ERecursion | EUnsupported, EUnsupported | EOther, EOther | EFuel, EFuel | EDomain, EDomain => true
+  | _, _ => false
+  end.
 Definition okind_eqb (a b : okind) : bool :=
   match a, b with
   | OKReduce, OKReduce | OKState, OKState | OKNoState, OKNoState => true
-  | OKRaise _, OKRaise _ => true
+  | OKRaise x, OKRaise y => err_eqb x y
   | _, _ => false
   end.
 Definition sbound_eqb (a b : sbound) : bool :=
